@@ -42,4 +42,27 @@ PROPS = {
              'distinct = distinct (delivery points, signal numbers, registration state at delivery, exit) trace',
         assumptions=_DRV_ASSUME,
     ),
+    'C10': dict(
+        engine='drvsim', level='exploration', finite=True,
+        quick=dict(count=19204), thorough=dict(count=19204),
+        shrink_paths=[],
+        rule='complete enumeration: every integer solve code -200..999 x {primal, dual, objective value present/absent} (8 patterns) x {-AMPL, wantsol=1} '
+             'answered by the solver stub in a whole driver run on a tiny LP (even codes) / MIP (odd codes) with alg:rays=3 alg:iisfind=1 alg:kappa=2, '
+             'plus 4 runs of the -! switch. Every case is distinct and non-trivial (distinct = (code, pattern, mode)); fault-free by design (the statement has no fault clause)',
+        assumptions=_DRV_ASSUME + ['documented class table transcribed by hand from doc/source/features-guide.rst',
+                                   'classification is observed through documented effects (objective in message, .unbdd/.dunbdd ray requests, IIS request, .kappa suffix); '
+                                   'where the documentation is silent (100-199 objective, 450-469 rays/IIS, 300-399 IIS) either behaviour is accepted'],
+    ),
+    'C09': dict(
+        engine='drvsim', level='exploration',
+        quick=dict(count=48000), thorough=dict(budget_s=480),
+        shrink_paths=[['faults'], ['signals'], ['script', 'transfers']],
+        rule='scenario = seeded NL model (valid of every operator mix / infeasible bounds / unsupported operators / unbounded vars / damaged or missing file) '
+             '+ names files (absent/full/short/CRLF/torn) + option assignments spread over mp_options, simdrv_options and argv (valid, unknown, ill-typed) '
+             '+ invocation mode (-AMPL, -s, wantsol=k, -e) + solver-stub answer (status, vector presence/length, NaN/Inf, exceptions, intermediate solutions) '
+             '+ 0..3 faults on the I/O path (.sol fopen/flush/fclose, .nl open/fstat/mmap/close, names, graph, option file, allocation). '
+             'Non-trivial = any fault scheduled or fired, or label other than LINEAR_CLEAN; distinct = (fault/exit trace, label, outcome class, cause class, solve code, model feature set)',
+        assumptions=_DRV_ASSUME + ['only the label LINEAR_CLEAN without faults is strict (must end in a .sol carrying the solver stub\'s code); every other label accepts '
+                                   'a well-formed .sol (A), a .sol reporting the failure with code 200-299/500-999 (B1) or no .sol + diagnostic + non-zero status (B2)'],
+    ),
 }
